@@ -6,6 +6,7 @@ import math
 
 import numpy as np
 
+import common
 import datagen
 
 NAN = float("nan")
@@ -17,6 +18,7 @@ def run(out, rng, rounds, key):
     import verif.interval
     import verif.axis
     nf = 0
+    lookups = []        # (Coq expression, input object, its threshold list, threshold, replay) for the tie of Model/Lookup.v
     for rd in range(rounds):
         nt, nl, ns = rng.randint(2, 4), rng.randint(1, 2), rng.randint(1, 3)
         ninp = rng.randint(2, 3)
@@ -64,6 +66,12 @@ def run(out, rng, rounds, key):
                 for t in base_thr:
                     tr[t] = cols[t]
                 desc.append({"input": k, "thresholds_in_file_order": order, "probabilities": {str(t): cols[t].tolist() for t in order}})
+            # quantile columns of every input (levels 0.1 and 0.9, independent missing cells) for the spread-skill ratio
+            qlo = cube([0.0, 1.0, 2.0], 0.12)
+            qhi = qlo + cube([1.0, 2.0, 4.0], 0.12)
+            inp.quantiles = np.array([0.9, 0.1]) if rng.random() < 0.5 else np.array([0.1, 0.9])
+            inp.quantile_scores = np.stack([qhi, qlo] if inp.quantiles[0] == 0.9 else [qlo, qhi], axis=3)
+            tr["q"] = (qlo, qhi, inp.fcst.copy())
             inputs.append(inp)
             truth.append(tr)
         rep = {"obs": obs.tolist(), "inputs": desc, "dims": [nt, nl, ns]}
@@ -71,6 +79,42 @@ def run(out, rng, rounds, key):
             d = verif.data.Data(inputs)
         except datagen.ImplExit:
             continue
+        # Tie of Model/Lookup.v: the index the model finds for a threshold in THIS input's own list is the column the implementation reads
+        for k, inp in enumerate(inputs):
+            if inp.threshold_scores is None:
+                continue
+            for t in base_thr:
+                try:
+                    with np.errstate(all="ignore"):
+                        got_col = np.asarray(d.get_scores(verif.field.Threshold(t), k), float)
+                except (datagen.ImplExit, Exception):
+                    got_col = None
+                lookups.append(("[DataQ.f_of_nat (match find_index [%s] %s 0 with Some i => i | None => 99%%nat end)]" % ("; ".join(datagen.qraw(x) for x in inp.thresholds), datagen.qraw(t)),
+                                np.asarray(inp.threshold_scores, float), got_col, dict(rep, input=k, threshold=t, thresholds_in_file_order=[float(x) for x in inp.thresholds])))
+        # spread-skill ratio: spread and skill over the SAME cases, those where obs, fcst and both quantiles are present in every input
+        import scipy.stats
+        okq = ~np.isnan(obs)
+        for k in range(ninp):
+            okq = okq & ~np.isnan(truth[k]["q"][0]) & ~np.isnan(truth[k]["q"][1]) & ~np.isnan(truth[k]["q"][2])
+        ivq = verif.interval.Interval(0.1, 0.9, True, True)
+        for k in range(ninp):
+            qlo, qhi, fc_k = truth[k]["q"]
+            nf += 1
+            try:
+                with np.errstate(all="ignore"):
+                    got_q = float(np.asarray(verif.metric.SpreadSkillRatio().compute(d, k, verif.axis.No(), ivq), float).flatten()[0])
+            except Exception as e:
+                out.violation("%s:ssr-exception" % key, "SpreadSkillRatio for input %d raises %s: %s" % (k, type(e).__name__, e), dict(rep, input=k))
+                continue
+            if okq.any():
+                sp_ = float(np.mean(qhi[okq] - qlo[okq])) / (0.5 * (scipy.stats.norm.ppf(0.9) - scipy.stats.norm.ppf(0.1)))
+                rm_ = math.sqrt(float(np.mean((obs[okq] - fc_k[okq]) ** 2)))
+                want_q = sp_ / rm_ if rm_ != 0 else NAN
+            else:
+                want_q = NAN
+            if not ((math.isnan(got_q) and math.isnan(want_q)) or (math.isinf(got_q) and math.isnan(want_q)) or abs(got_q - want_q) <= 1e-6 * max(1.0, abs(want_q))):
+                out.violation("%s:ssr-cases" % key, "SpreadSkillRatio of input %d: got %r; spread and skill over the cases where obs, fcst and both quantiles are present in EVERY input give %r"
+                              % (k, got_q, want_q), dict(rep, input=k, quantiles={"lower": qlo.tolist(), "upper": qhi.tolist(), "fcst": fc_k.tolist()}))
         for bt, lo, hi in (("below=", None, 1.0), ("within=", 1.0, 2.5), ("above", 2.5, None)):
             iv = verif.interval.Interval(-np.inf if lo is None else lo, np.inf if hi is None else hi, bt == "=within=", bt in ("below=", "within=", "=within="))
             used = [t for t in (lo, hi) if t is not None]
@@ -105,4 +149,25 @@ def run(out, rng, rounds, key):
                                       "of these thresholds are present in EVERY input it is %r (%s inputs)" % (bt, used, k, axis.name(), got, want, mode),
                                       dict(rep, bin_type=bt, input=k, axis=axis.name()))
                         break
+    if lookups:
+        try:
+            idx = common.coq_eval_float_lists("From Coq Require Import QArith.\nFrom VF Require Import Model.DataQ Model.Lookup.", [l_[0] for l_ in lookups], "lookup_%s" % key.replace("-", "_"), chunk=200, float_scope=False)
+            bad = []
+            for (expr, stored, got_col, rp), ix in zip(lookups, idx):
+                i_ = int(ix[0])
+                if i_ == 99:
+                    continue            # not stored in this input: derived from an ensemble or refused; the Brier comparison above covers it
+                if got_col is None:
+                    bad.append((rp, "the input stores the threshold (model: column %d) but the implementation does not deliver it" % i_))
+                    continue
+                want_col = stored[:, :, :, i_]
+                m_ = ~np.isnan(got_col)
+                if got_col.shape != want_col.shape or not np.allclose(got_col[m_], want_col[m_], atol=1e-12):
+                    bad.append((rp, "model: column %d of the input's own list; the implementation delivers other values" % i_))
+            nf += len(lookups)
+            if bad:
+                out.broken_obligation("tie:Model/Lookup.v", "%d of %d threshold lookups differ; first: %s (thresholds in file order %r, asked %r)" % (len(bad), len(lookups), bad[0][1], bad[0][0]["thresholds_in_file_order"], bad[0][0]["threshold"]))
+                out.violation("%s:threshold-column" % key, "Threshold(%r) of input %d, whose file lists the thresholds %r: %s" % (bad[0][0]["threshold"], bad[0][0]["input"], bad[0][0]["thresholds_in_file_order"], bad[0][1]), bad[0][0])
+        except RuntimeError as ex:
+            out.broken_obligation("tie:Model/Lookup.v", str(ex)[-1200:])
     return nf
